@@ -2,7 +2,7 @@
 use std::path::PathBuf;
 
 use statime_verif_harness::{out::Out, prng::Prng};
-use statime_verif_harness_linux::{fwdq, metrics, wedge};
+use statime_verif_harness_linux::{clockx, fwdq, metrics, wedge};
 
 fn main() {
     let args: Vec<String> = std::env::args().collect();
@@ -46,6 +46,7 @@ fn main() {
         "metrics" => metrics::generate(&mut out, &rng, thorough, &dir),
         "exporter" => wedge::generate(&mut out, &rng, thorough, &dir),
         "forwarder" => fwdq::generate(&mut out, &rng, thorough),
+        "sysclock" => clockx::generate(&mut out, &rng, thorough),
         _ => panic!("unknown stream {stream}"),
     }
     out.finish();
